@@ -90,6 +90,15 @@ func (g *GaussianSampler) read(pol Poly, f func(a, b, c uint64) uint64) {
 
 	coeffs := pol.Coeffs
 
+	// conv switches a sampled residue to the output domain of the sampler. The conversion is applied to the
+	// sample only (not to the polynomial), so that ReadAndAdd leaves the accumulated value untouched.
+	conv := func(v uint64, j int) uint64 {
+		if g.montgomery {
+			return MForm(v, moduli[j], r.SubRings[j].BRedConstant)
+		}
+		return v
+	}
+
 	// If the standard deviation is greater than float64 precision
 	// and the bound is greater than uint64, we switch to an approximation
 	// using arbitrary precision.
@@ -149,7 +158,7 @@ func (g *GaussianSampler) read(pol Poly, f func(a, b, c uint64) uint64) {
 			}
 
 			for j, qi := range moduli {
-				coeffs[j][i] = f(coeffs[j][i], coeff.Mod(normInt, Qi[j]).Uint64(), qi)
+				coeffs[j][i] = f(coeffs[j][i], conv(coeff.Mod(normInt, Qi[j]).Uint64(), j), qi)
 			}
 		}
 
@@ -174,14 +183,11 @@ func (g *GaussianSampler) read(pol Poly, f func(a, b, c uint64) uint64) {
 				if c >= qi {
 					c %= qi
 				}
-				coeffs[j][i] = f(coeffs[j][i], (c*sign)|(qi-c)*(sign^1), qi)
+				coeffs[j][i] = f(coeffs[j][i], conv((c*sign)|(qi-c)*(sign^1), j), qi)
 			}
 		}
 	}
 
-	if g.montgomery {
-		g.baseRing.MForm(pol, pol)
-	}
 }
 
 // NormFloat64 returns a normally distributed float64 in
